@@ -4728,12 +4728,16 @@ func (t *Terminal) Loop() error {
 							spinner := makeSpinner(t.unicode)
 							spinnerIndex := -1 // Delay initial rendering by an extra tick
 							ticker := time.NewTicker(previewChunkDelay)
+							ticks := 0
 							offset := initialOffset
 						Loop:
 							for {
 								select {
 								case <-ticker.C:
-									if len(lines) > 0 && len(lines) >= initialOffset {
+									ticks++
+									// Wait until there are enough lines to scroll to the initial offset,
+									// but not for long: the command may take its time or never print as many
+									if len(lines) > 0 && (len(lines) >= initialOffset || time.Duration(ticks)*previewChunkDelay >= previewDelayed) {
 										if spinnerIndex >= 0 {
 											spin := spinner[spinnerIndex%len(spinner)]
 											t.reqBox.Set(reqPreviewDisplay, previewResult{version, lines, offset, spin, frame})
